@@ -20,6 +20,7 @@ from .common import pmap  # also puts /repo and /verif on sys.path and silences 
 
 MODULE = "c10"
 MAX_VIOL_PER_WORKER = 25
+MAX_VIOLATIONS = 200
 
 
 # ===========================================================================
@@ -500,6 +501,26 @@ NL_TOKS = ["\n", "\n", "\n", "\r\n", "\r", "//c\n", " // x, (y|z) } signature\n"
 ILLEGAL = ["#", "&", "|", "&&", "||", "~", "-", "^", "@", ".", ":", "=", "<", ">", "*", "/", "+", '"', "'", "[", "]", "\\", "_", "1", "?", "%", "$", "{", "}", "\x0c", "\xa0", "\u2028", "\x85", "\u00e9", "\u0660", "->", "*/"]
 
 
+CHARSET = "ab1_-!,;()|{} \t\n\r/*#&TB"
+
+
+def char_edits(rng, text, k=2):
+    """k single-character edits (delete / insert / replace) of a well-formed text; the reference decides each"""
+    out = []
+    for _ in range(k):
+        r = rng.random()
+        if r < 0.34 and text:
+            i = rng.randrange(len(text))
+            out.append(("char-deleted", text[:i] + text[i + 1 :]))
+        elif r < 0.67:
+            i = rng.randint(0, len(text))
+            out.append(("char-inserted", text[:i] + rng.choice(CHARSET) + text[i:]))
+        elif text:
+            i = rng.randrange(len(text))
+            out.append(("char-replaced", text[:i] + rng.choice(CHARSET) + text[i + 1 :]))
+    return out
+
+
 def rnd_ast(rng, atoms, depth):
     if depth <= 0 or rng.random() < 0.22:
         r = rng.random()
@@ -639,14 +660,53 @@ def _w_formulas(item):
         _absorb(acc, "parse_formula", text, r, "rnd-formula")
         if len(acc["samples"]) < 1:
             acc["samples"].append({"entry": "parse_formula", "text": text, "reference": ast_text(back), "real_accepts": r["real_ok"], "violations": len(r["violations"])})
-        for cls, mtext in mutate_formula_tokens(rng, toks):
+        for cls, mtext in mutate_formula_tokens(rng, toks) + char_edits(rng, text):
             r = judge("parse_formula", mtext)
             _absorb(acc, "parse_formula", mtext, r, "mut-formula", variant=True)
             if not r["ref_ok"]:
                 _bump(acc, "malformed-class:" + cls)
-    for text in ["", " ", "\t", "\n", "// only a comment", "/* only */", "()", "!", "Top Bottom", "a,", ";a", "(a", "a)", "! !", "a ! b", "(a)(b)", "a , , b", "Top()", "a /* x", "a */", "signature", "conditionals", "(a|b)", "a|b", "{a}"]:
-        r = judge("parse_formula", text)
-        _absorb(acc, "parse_formula", text, r, "fixed-formula", variant=True)
+    return acc
+
+
+FIXED_FORMULAS = ["", " ", "\t", "\n", "// only a comment", "/* only */", "()", "!", "Top Bottom", "a,", ";a", "(a", "a)", "! !", "a ! b", "(a)(b)", "a , , b", "Top()", "a /* x", "a */", "signature", "conditionals", "(a|b)", "a|b", "{a}", "a\n", "a\n\n", "a //c\n", "a\r\n", "!!a", "!a,b;c", "a;b,c", "a,b;c", "!(a;b),c", "Top;Bottom", "!Top", "top", "a1_-"]
+FIXED_QUERIES = [
+    "(b|a),(c|a)",
+    "(b|a)",
+    "(f|p),\n(w|p)\n",
+    "(b|a) (c|a)",
+    "",
+    " \n ",
+    "(b|a),",
+    "(b|a)}\n",
+    "(b|a)\n}\n junk{",
+    "signature\n a,b\nconditionals\nq{\n(b|a),\n(a|b)\n}",
+    # observation only (see judge): the word 'conditionals' inside a well-formed query list
+    "(b|a) // conditionals of the birds base",
+    "(conditionalsX|a)",
+]
+FIXED_BASES = [
+    "signature\n   b, p, f, w\n\nconditionals\nbirds005{\n   (f | b),\n   (!f | p),\n   (b | p),\n   (w | b)\n}\n",  # the documented example
+    "signature\n a,b\nconditionals\nkb{ }",
+    "signature\n a,b\nconditionals\nkb{}\n",
+    "signature\n a,b\nconditionals\nkb{(b|a)} junk (",
+    "signature\n a,b\nconditionals\nkb{(b|a)}\n)))",
+    "signature\n a,b\nconditionals\nkb{(b|a)(a|b)}",
+    "signature\n a,b\nconditionals\nkb{(b a)}",
+    "signature\n a,a\nconditionals\nkb{(b|a)}",
+    "signature\n a,Top\nconditionals\nkb{(b|a)}",
+    "signature\n a,b\nconditionals\nkb{(b|a)",
+    "signature\n a,b\nconditionals\nkb{(b|a)}\nsignature\n a\nconditionals\nk2{(a|a)}",
+    "signature\n a,b\n",
+    "",
+]
+
+
+def _w_fixed(_item):
+    acc = _new()
+    for entry, texts in (("parse_formula", FIXED_FORMULAS), ("parse_queries", FIXED_QUERIES), ("parse_belief_base", FIXED_BASES)):
+        for text in texts:
+            r = judge(entry, text)
+            _absorb(acc, entry, text, r, "fixed-" + entry, variant=True)
     return acc
 
 
@@ -840,8 +900,8 @@ def _w_bases(item):
         _absorb(acc, "parse_belief_base", text, r, "rnd-base")
         if len(acc["samples"]) < 1 and n >= 2:
             acc["samples"].append({"entry": "parse_belief_base", "text": text, "reference": {"signature": rsig, "conditionals": _conds_text(blocks[0][1])}, "real_accepts": r["real_ok"], "violations": len(r["violations"])})
-        for cls, mts in mutate_base_tokens(rng, ts, sig):
-            mtext = join_kinded(rng, mts, plain=rng.random() < 0.5)
+        variants = [(cls, join_kinded(rng, mts, plain=rng.random() < 0.5)) for cls, mts in mutate_base_tokens(rng, ts, sig)]
+        for cls, mtext in variants + char_edits(rng, text, 3):
             r = judge("parse_belief_base", mtext)
             _absorb(acc, "parse_belief_base", mtext, r, "mut-base", variant=True)
             if not r["ref_ok"]:
@@ -851,9 +911,12 @@ def _w_bases(item):
         if rng.random() < 0.03:
             # two 'conditionals' blocks: grammatical; recorded, only the signature is judged
             text2 = text.rstrip("\n\r") + "\nconditionals\nsecond{\n(" + sig[0] + "|" + sig[0] + ")\n}\n"
-            if ref_base(text2):
-                r = judge("parse_belief_base", text2)
-                _absorb(acc, "parse_belief_base", text2, r, "multi-block")
+            try:
+                ref_base(text2)
+            except Reject as e:
+                raise AssertionError(f"checker: reference rejects a generated two-block base {text2!r}: {e}")
+            r = judge("parse_belief_base", text2)
+            _absorb(acc, "parse_belief_base", text2, r, "multi-block")
     return acc
 
 
@@ -877,30 +940,12 @@ def _w_queries(item):
         _absorb(acc, "parse_queries", text, r, "rnd-queries")
         if len(acc["samples"]) < 1 and n >= 2:
             acc["samples"].append({"entry": "parse_queries", "text": text, "reference": _conds_text(rconds), "real_accepts": r["real_ok"], "violations": len(r["violations"])})
-        for cls, mts in mutate_query_tokens(rng, ts):
-            mtext = join_kinded(rng, mts, plain=rng.random() < 0.5)
+        variants = [(cls, join_kinded(rng, mts, plain=rng.random() < 0.5)) for cls, mts in mutate_query_tokens(rng, ts)]
+        for cls, mtext in variants + char_edits(rng, text):
             r = judge("parse_queries", mtext)
             _absorb(acc, "parse_queries", mtext, r, "mut-queries", variant=True)
             if not r["ref_ok"]:
                 _bump(acc, "malformed-class:" + cls)
-    fixed = [
-        "(b|a),(c|a)",
-        "(b|a)",
-        "(f|p),\n(w|p)\n",
-        "(b|a) (c|a)",
-        "",
-        " \n ",
-        "(b|a),",
-        "(b|a)}\n",
-        "(b|a)\n}\n junk{",
-        "signature\n a,b\nconditionals\nq{\n(b|a),\n(a|b)\n}",
-        # observation only (see judge): the word 'conditionals' inside a well-formed query list
-        "(b|a) // conditionals of the birds base",
-        "(conditionalsX|a)",
-    ]
-    for text in fixed:
-        r = judge("parse_queries", text)
-        _absorb(acc, "parse_queries", text, r, "fixed-queries", variant=True)
     return acc
 
 
@@ -911,9 +956,10 @@ def run(tier, seed):
     thorough = tier == "thorough"
     rng = random.Random(seed)
     maxlen, maxlen_nosp = (6, 5) if thorough else (5, 4)
-    n_formulas, n_bases, n_queries = (40000, 8000, 6000) if thorough else (3000, 600, 400)
+    n_formulas, n_bases, n_queries = (40000, 8000, 6000) if thorough else (2400, 450, 300)
     per = 125 if thorough else 50
     jobs = [("exh", it) for it in _exhaustive_items(maxlen, maxlen_nosp)]
+    jobs += [("fixed", None)]
     jobs += [("formulas", (rng.randrange(2**62), per)) for _ in range(n_formulas // per)]
     jobs += [("bases", (rng.randrange(2**62), max(5, per // 5))) for _ in range(n_bases // max(5, per // 5))]
     jobs += [("queries", (rng.randrange(2**62), max(5, per // 5))) for _ in range(n_queries // max(5, per // 5))]
@@ -937,7 +983,7 @@ def run(tier, seed):
         key = (v["kind"], v["input"]["entry"])
         (rest if key in seen else first).append(v)
         seen.add(key)
-    tot["violations"] = first + rest
+    tot["violations"] = (first + rest)[:MAX_VIOLATIONS]  # the full count is extra["violations_total"]
     tot["extra"]["stats"] = dict(sorted(tot["extra"]["stats"].items()))
     st = tot["extra"]["stats"]
     # vacuity guards of the checker itself
@@ -949,9 +995,9 @@ def run(tier, seed):
         f"parse_formula on ALL {nexh} token strings of length <= {maxlen} over {{a,b,Top,Bottom,!,',',';',(,)}} joined by one space "
         f"and all {nnosp} of length <= {maxlen_nosp} joined without spaces (accept/reject and truth table vs the reference parser); "
         f"{n_formulas // per * per} seeded random formulas (depth <= 6, <= 4 atoms from a pool with digits/_/-/look-alikes of Top/Bottom/keywords, "
-        f"random whitespace/comments) each with ~10 malformed variants; {n_bases // max(5, per // 5) * max(5, per // 5)} random belief-base texts (1-5 atoms, 0-6 conditionals, "
-        f"random newlines/comments) each with ~27 malformed variants, via parse_belief_base; {n_queries // max(5, per // 5) * max(5, per // 5)} random query lists "
-        f"each with ~11 malformed variants, via parse_queries; str(conditional) of every accepted conditional re-parsed"
+        f"random whitespace/comments) each with ~12 malformed variants (token-level classes and single-character edits); {n_bases // max(5, per // 5) * max(5, per // 5)} random belief-base texts (1-5 atoms, 0-6 conditionals, "
+        f"random newlines/comments) each with ~30 malformed variants, via parse_belief_base; {n_queries // max(5, per // 5) * max(5, per // 5)} random query lists "
+        f"each with ~13 malformed variants, via parse_queries; str(conditional) of every accepted conditional re-parsed"
     )
     tot["rule"] = (
         "a case is one (entry point, input text); distinct = distinct text per entry point; non-trivial = at least one of reference/real "
@@ -964,6 +1010,8 @@ def _dispatch(job):
     kind, item = job
     if kind == "exh":
         return _w_exhaustive(item)
+    if kind == "fixed":
+        return _w_fixed(item)
     if kind == "formulas":
         return _w_formulas(item)
     if kind == "bases":
